@@ -972,7 +972,13 @@ func (e *Engine) initIntrinsics() {
 		if t, ok := e.crypto["sig_by_other"]; ok {
 			byOther = t
 		}
-		return &TupleV{[]Value{tb.Ite(isAuthor, cr(e, "sig_valid"), byOther), e.zero(errT)}}
+		ok := tb.Ite(isAuthor, cr(e, "sig_valid"), byOther)
+		// key types differ in HOW they report a mismatch: ed25519 returns (false, nil), RSA / ECDSA / secp256k1 (false, err);
+		// the class is an outcome the harness may make symbolic ("sig_mismatch_is_error")
+		if t, has := e.crypto["sig_mismatch_is_error"]; has {
+			return &TupleV{[]Value{ok, e.iteVal(tb.And(tb.Not(ok), t), e.newErr("crypto: verification error"), e.zero(errT))}}
+		}
+		return &TupleV{[]Value{ok, e.zero(errT)}}
 	}
 	I["github.com/libp2p/go-libp2p/core/crypto.MarshalPublicKey"] = func(e *Engine, a []Value, pos token.Pos, fn *ssa.Function) Value {
 		return &TupleV{[]Value{e.stringToBytes(e.str("KEY"), types.NewSlice(types.Typ[types.Uint8])), e.zero(errT)}}
